@@ -946,6 +946,10 @@ impl<'a> Exec<'a> {
                         let what = describe_snap_diff(&b, &after);
                         let m = format!("refused {} changed the package: {} [{}]", op.kind(), what, brief_op(op));
                         self.viol("C04.err-unchanged", op.kind(), m.clone());
+                        if self.foreign {
+                            // "changes made through the API preserve all untouched content"
+                            self.viol("C02.edit-preserves", op.kind(), m.clone());
+                        }
                         if self.limits {
                             self.viol("C20.over-changed-state", op.kind(), m);
                         }
@@ -1825,6 +1829,21 @@ pub fn run(trace: &Trace, cfg: &ExecCfg) -> RunResult {
         ex.step(rec);
         let ord = ex.disk.borrow().ord;
         ex.stats.op_events.push((rec.id, ord));
+    }
+    // An API-level divergence ended the run: what would a save put on the
+    // medium now?  (The saved bytes are C08's and C10's business even when
+    // the divergence itself belongs to another property.)
+    if ex.done && cfg.oracles && !ex.tainted && !ex.byte_level_failed && ex.writers.is_empty() && !ex.violations.is_empty()
+        && !ex.violations.iter().any(|v| v.check.ends_with(".panic") || v.check.ends_with(".hang"))
+    {
+        if let Some(p) = ex.pkg.as_mut() {
+            if let Caught::Val(Ok(())) = guarded(|| p.flush()) {
+                let img = ex.disk.borrow().view.clone();
+                ex.model.on_save();
+                ex.stats.probe("byte_oracle_after_divergence");
+                ex.byte_oracle(&img);
+            }
+        }
     }
     let mut final_image = None;
     if !ex.done && cfg.keep_final {
